@@ -202,6 +202,11 @@ def parser_table(ck, prog):
         if len(tests) > len(order):
             order = [x[0] for x in tests]
         matched = [x for x in tests if x[2]]
+        if any(not (a[0].endswith(b[0]) or b[0].endswith(a[0]))
+               for i, a in enumerate(matched) for b in matched[i + 1:]):
+            # two different suffixes cannot both end the same string: an infeasible path (tests
+            # evaluated after the first match, e.g. by a comprehension over the suffix table)
+            continue
         val = o.value
         if val == Tup((NONE, NONE)):
             n_fail_paths += 1
@@ -220,7 +225,7 @@ def parser_table(ck, prog):
             continue
         rest = num.args[0]
         if matched:
-            lit, w_test, _ = matched[-1]
+            lit, w_test, _ = matched[0] if len(matched) > 1 else matched[-1]
             if isinstance(rest, Opaque) and rest.label == 'slice' and rest.args[0] == stripped \
                     and rest.args[1] == NONE and isinstance(rest.args[2], _Sym) \
                     and rest.args[2].is_const() and rest.args[3] == NONE:
